@@ -33,7 +33,7 @@ ASSUMPTIONS = [
     "reference model vt/ref/c27_cache_model.py is written from the statement; LazilyHashedPath (snakeoil) only carries data",
 ]
 SHARDS = {"quick": 4, "thorough": 16}
-TIMEOUT = {"quick": 160, "thorough": 1100}
+TIMEOUT = {"quick": 200, "thorough": 1100}
 MIN_EVALS = 1000
 REQUIRED_COUNTERS = ("roundtrip_reads", "listing_checks", "overwrites", "crash_points_enumerated", "crash_runs",
                      "crash_runs_died_in_store", "old_reader_checks")
@@ -451,7 +451,7 @@ def run(ctx):
     def histories(n):
         nonlocal done
         for _ in range(n):
-            if done >= nhist or ctx.out_of_time(15):
+            if done >= nhist or ctx.out_of_time(30):
                 return
             layout = model.LAYOUTS[done % 2]
             root = os.path.join(scratch, "c27_hist_%d" % done)
